@@ -215,6 +215,45 @@ func (r *rewriter) pkgFunc(fun ast.Expr) (string, string) {
 	return fn.Pkg().Path(), fn.Name()
 }
 
+// inSelectComm reports whether the innermost enclosing statement context is
+// the communication clause of a select statement.
+func inSelectComm(stack []ast.Node) bool {
+	for i := len(stack) - 1; i > 0; i-- {
+		if cc, ok := stack[i-1].(*ast.CommClause); ok {
+			if st, ok := stack[i].(ast.Stmt); ok && cc.Comm == st {
+				return true
+			}
+			return false
+		}
+		if _, ok := stack[i].(*ast.BlockStmt); ok {
+			return false
+		}
+	}
+	return false
+}
+
+// rewriteGo turns a goroutine started by repository code into a task of the
+// scheduler:
+//
+//	go func(a T) { BODY }(x)
+//	=>  zzgoN := simhook.PreGo(); go func(a T) { simhook.TaskEnter(zzgoN); defer simhook.TaskExit(zzgoN); BODY }(x)
+//	go f(x)
+//	=>  zzgoN := simhook.PreGo(); go func() { simhook.TaskEnter(zzgoN); defer simhook.TaskExit(zzgoN); f(x) }()
+//
+// (in the second form the arguments are evaluated in the new goroutine).
+func (r *rewriter) rewriteGo(g *ast.GoStmt) {
+	name := fmt.Sprintf("zzgo%d", r.off(g.Pos()))
+	r.insert(g.Pos(), name+" := simhook.PreGo(); ", false)
+	prologue := fmt.Sprintf("simhook.TaskEnter(%s); defer simhook.TaskExit(%s); ", name, name)
+	if lit, ok := g.Call.Fun.(*ast.FuncLit); ok {
+		r.insert(lit.Body.Lbrace+1, prologue, false)
+	} else {
+		r.insert(g.Call.Pos(), "func() { "+prologue, false)
+		r.insert(g.Call.End(), " }()", true)
+	}
+	r.sum.LockSites++
+}
+
 func (r *rewriter) note(what string) {
 	if r.sum.Uncontrolled == nil {
 		r.sum.Uncontrolled = map[string]int{}
@@ -260,8 +299,42 @@ func (r *rewriter) rewriteLock(call *ast.CallExpr) {
 	case "Pool":
 		r.note("sync.Pool")
 		return
-	case "Cond", "WaitGroup":
-		r.note("sync." + named.Obj().Name())
+	case "Cond":
+		r.note("sync.Cond")
+		return
+	case "WaitGroup":
+		xt := r.pkg.TypesInfo.TypeOf(sel.X)
+		if xt == nil {
+			return
+		}
+		amp := "&"
+		if p, ok := xt.(*types.Pointer); ok {
+			xt = p.Elem()
+			amp = ""
+		}
+		if n2, ok := xt.(*types.Named); !ok || n2.Obj().Pkg() == nil || n2.Obj().Pkg().Path() != "sync" || n2.Obj().Name() != "WaitGroup" {
+			r.note("sync.WaitGroup(promoted)")
+			return
+		}
+		var fnName string
+		switch fn.Name() {
+		case "Add":
+			fnName = "simhook.WGAdd("
+		case "Done":
+			fnName = "simhook.WGDone("
+		case "Wait":
+			fnName = "simhook.WGWait("
+		default:
+			return
+		}
+		// X.Add(n) => simhook.WGAdd(&X, n);  X.Done() => simhook.WGDone(&X)
+		sep := ", "
+		if len(call.Args) == 0 {
+			sep = ""
+		}
+		r.replace(sel.X.End(), call.Lparen+1, sep)
+		r.wrap2(call.Pos(), call.Pos(), fnName+amp, "")
+		r.sum.LockSites++
 		return
 	case "Mutex", "RWMutex":
 		if len(call.Args) != 0 || (fn.Name() != "Lock" && fn.Name() != "RLock") {
@@ -319,6 +392,7 @@ func (r *rewriter) run(fname string) error {
 	// statement context for channel yields: stack of nodes
 	var stack []ast.Node
 	chanStmtDone := map[ast.Stmt]bool{}
+	recv2 := map[*ast.UnaryExpr]bool{}
 	yieldBefore := func(at token.Pos) {
 		// find innermost statement that is a direct child of a statement list
 		for i := len(stack) - 1; i > 0; i-- {
@@ -406,8 +480,15 @@ func (r *rewriter) run(fname string) error {
 				r.wrap(n.X, "simhook.ChanRange(", fmt.Sprintf(", %q)", s))
 				r.sum.ChanSites++
 			}
+			if r.locks && isChan(t) {
+				r.wrap(n.X, "simhook.RangeChan(", ")")
+				r.sum.LockSites++
+			}
 		case *ast.GoStmt:
 			r.note("go-statement")
+			if r.locks {
+				r.rewriteGo(n)
+			}
 		case *ast.CallExpr:
 			if r.locks {
 				r.rewriteLock(n)
@@ -449,13 +530,58 @@ func (r *rewriter) run(fname string) error {
 					}
 				}
 			}
+			if r.locks {
+				if id, ok := n.Fun.(*ast.Ident); ok && id.Name == "close" {
+					if _, isBuiltin := info.Uses[id].(*types.Builtin); isBuiltin {
+						r.replace(id.Pos(), id.End(), "simhook.Close")
+						r.sum.LockSites++
+					}
+				}
+			}
 		case *ast.SendStmt:
 			if r.chans {
 				yieldBefore(n.Pos())
 			}
+			if r.locks {
+				if inSelectComm(stack) {
+					r.note("channel-op-in-select(unmodelled)")
+				} else {
+					// ch <- v  =>  simhook.Send(ch, v)
+					r.insert(n.Pos(), "simhook.Send(", false)
+					r.replace(n.Arrow, n.Arrow+2, ",")
+					r.insert(n.End(), ")", true)
+					r.sum.LockSites++
+				}
+			}
+		case *ast.AssignStmt:
+			if r.locks && len(n.Lhs) == 2 && len(n.Rhs) == 1 {
+				if u, ok := n.Rhs[0].(*ast.UnaryExpr); ok && u.Op == token.ARROW && !inSelectComm(stack) {
+					recv2[u] = true
+				}
+			}
+		case *ast.ValueSpec:
+			if r.locks && len(n.Names) == 2 && len(n.Values) == 1 {
+				if u, ok := n.Values[0].(*ast.UnaryExpr); ok && u.Op == token.ARROW {
+					recv2[u] = true
+				}
+			}
 		case *ast.UnaryExpr:
 			if r.chans && n.Op == token.ARROW {
 				yieldBefore(n.Pos())
+			}
+			if r.locks && n.Op == token.ARROW {
+				if inSelectComm(stack) {
+					r.note("channel-op-in-select(unmodelled)")
+				} else {
+					// <-ch  =>  simhook.Recv(ch)   /   v, ok := <-ch  =>  simhook.Recv2(ch)
+					fn := "simhook.Recv("
+					if recv2[n] {
+						fn = "simhook.Recv2("
+					}
+					r.replace(n.OpPos, n.OpPos+2, fn)
+					r.insert(n.End(), ")", true)
+					r.sum.LockSites++
+				}
 			}
 		case *ast.SelectStmt:
 			r.note("select-statement")
